@@ -111,7 +111,7 @@ def gen_conf(rng):
     return {'grid': grid, 'cache': cache, 'src_kind': src_kind, 'lclass': lclass, 'bclass': bclass, 'backend': backend}
 
 
-def build(run, spec, d):
+def build(run, spec, d, name='mapproxy'):
     conf = scenario.base_conf()
     conf['grids']['g'] = dict(spec['grid'])
     if spec['src_kind'] == 'wms':
@@ -123,7 +123,7 @@ def build(run, spec, d):
     conf['layers'] = [{'name': 'l', 'title': 'l', 'sources': ['c']}]
     conf['services'] = {'tms': {}, 'wms': {'srs': [spec['grid']['srs']], 'image_formats': ['image/png'],
                                            'md': {'title': 't'}}}
-    sc = scenario.Scenario(d, conf)
+    sc = scenario.Scenario(d, conf, name=name)
     grid = sc.grid('g')
     lat = upstream.Lattice.from_grid(grid)
     state = {'epoch': 0}
